@@ -2,6 +2,7 @@ package main
 
 import (
 	"fmt"
+	"strings"
 	"go/token"
 	"go/types"
 
@@ -21,6 +22,10 @@ func (x *Exec) step(fr *Frame, ins ssa.Instruction, st *State) {
 		x.allocEmbeddedArrays(st, r, t)
 		x.store(st, a, x.w.zeroOf(t))
 		fr.vals[in] = r
+		if _, isStruct := t.Underlying().(*types.Struct); !isStruct && x.isSpecFn(fr.fn) {
+			cn, cs := x.cellComp(t)
+			x.specCells = append(x.specCells, specCell{cn, cs, r})
+		}
 	case *ssa.BinOp:
 		fr.vals[in] = x.binop(fr, in, st)
 	case *ssa.UnOp:
@@ -182,11 +187,11 @@ func (x *Exec) step(fr *Frame, ins ssa.Instruction, st *State) {
 			other := st.clone()
 			other.guard = ts.And(st.guard, ts.Not(reg))
 			if other.guard.isFalse() {
-				st.heap, st.alloc, st.guard = sub.heap, sub.alloc, sub.guard
+				st.heap, st.alloc, st.guard, st.epoch = sub.heap, sub.alloc, sub.guard, sub.epoch
 				continue
 			}
 			m := x.mergeStatesRel([]*Term{sub.guard, other.guard}, []*Term{reg, ts.Not(reg)}, []*State{sub, other})
-			st.heap, st.alloc, st.guard = m.heap, m.alloc, m.guard
+			st.heap, st.alloc, st.guard, st.epoch = m.heap, m.alloc, m.guard, m.epoch
 		}
 	case *ssa.Go:
 		unsup("go statement")
@@ -713,7 +718,7 @@ func (x *Exec) indexAddr(fr *Frame, in *ssa.IndexAddr, st *State) Value {
 		if row, ok := x.arrayFieldRow(st, a); ok {
 			if _, isStruct := at.Elem().Underlying().(*types.Struct); isStruct {
 				// array of structs embedded in a struct: a row of references to the element objects
-				e := x.objElem(st, row, idx, at.Elem())
+				e := x.objElem(st, row, idx, at.Elem(), at.Len())
 				return e
 			}
 			return &Addr{root: rElem, arr: row, idx: idx, elemT: at.Elem(), curT: at.Elem()}
@@ -1041,7 +1046,7 @@ func (x *Exec) arrayFieldRow(st *State, a *Addr) (*Term, bool) {
 
 // objElem: reference of element idx of an embedded array of structs (rows of
 // object references; distinct indices give distinct, non-nil objects).
-func (x *Exec) objElem(st *State, row, idx *Term, elemT types.Type) *Term {
+func (x *Exec) objElem(st *State, row, idx *Term, elemT types.Type, n int64) *Term {
 	ts := x.w.ts
 	si := x.w.structOf(elemT)
 	cn := "Eobj_" + si.name
@@ -1049,6 +1054,15 @@ func (x *Exec) objElem(st *State, row, idx *Term, elemT types.Type) *Term {
 	e := ts.Select(ts.Select(h, row), idx)
 	x.assume(ts.And(x.w.intLt(ts.IntLit(0), e), x.w.intLe(e, st.alloc)))
 	x.assume(ts.And(ts.Eq(x.w.Fun("objrow_"+si.name, SInt, e), row), ts.Eq(x.w.Fun("objidx_"+si.name, SBV(64), e), idx)))
+	if idx.open && !row.open && !h.open && n > 0 {
+		// the element is named by a quantified index: the facts above would be
+		// dropped (open), so state them once for every index of this row
+		b := ts.BoundAt("oi", SBV(64), 150)
+		eb := ts.Select(ts.Select(h, row), b)
+		x.assume(ts.Quant("forall", []*Term{b}, ts.Implies(x.w.bvult(b, ts.BV(uint64(n), 64)),
+			ts.And(x.w.intLt(ts.IntLit(0), eb), x.w.intLe(eb, st.alloc),
+				ts.Eq(x.w.Fun("objrow_"+si.name, SInt, eb), row), ts.Eq(x.w.Fun("objidx_"+si.name, SBV(64), eb), b)))))
+	}
 	return e
 }
 
@@ -1075,4 +1089,15 @@ func (x *Exec) allocEmbeddedArrays(st *State, ref *Term, t types.Type) {
 		_, rowSort, _ := es.arrParts()
 		st.heap[en] = ts.Store(x.comp(st, en, es), r, ts.App("(as const "+string(rowSort)+")", rowSort, x.w.zeroOf(at.Elem())))
 	}
+}
+
+// isSpecFn: a generated contract function or one of its closures.
+func (x *Exec) isSpecFn(fn *ssa.Function) bool {
+	for fn != nil {
+		if strings.HasPrefix(fn.Name(), "verif_c_") {
+			return true
+		}
+		fn = fn.Parent()
+	}
+	return false
 }
